@@ -30,13 +30,15 @@ def S(*names):
 
 
 def inst(name, peers, conns, tags=("t",), tagpeers=None, vals="{1, 2}", low=1, high=2, grace=1, maxage=1,
-         silence=0, force=True, profile=1, prot2=(), prot1=(), decaymax=0, decayevery=1, split=False, maxburst=2):
+         silence=0, force=True, profile=1, prot2=(), prot1=(), decaymax=0, decayevery=1, split=False, maxburst=2,
+         dkinds=("fixed1",), bkinds=("bounded",), deltas="{1}"):
     return name, {
         "Peers": S(*peers), "Conns": S(*conns), "Tags": S(*tags),
         "TagPeers": S(*(peers if tagpeers is None else tagpeers)), "Vals": vals, "Low": low, "High": high,
         "Grace": grace, "MaxAge": maxage, "Silence": silence, "HasForce": "TRUE" if force else "FALSE",
         "Profile": profile, "Prot2": S(*prot2), "Prot1": S(*prot1), "DecayMax": decaymax, "DecayEvery": decayevery,
-        "Split": "TRUE" if split else "FALSE", "MaxBurst": maxburst}
+        "Split": "TRUE" if split else "FALSE", "MaxBurst": maxburst,
+        "DecayKinds": S(*dkinds), "BumpKinds": S(*bkinds), "Deltas": deltas}
 
 
 P3 = ("p1", "p2", "p3")
@@ -60,6 +62,11 @@ def replay_instances(ctx):
              low=2, high=3, prot1=("p3",), profile=3),
         # the decaying tag d (bump, remove, decay every second unit) next to a plain tag
         inst("decay2", ("p1", "p2"), ("p1a", "p1b", "p2a"), vals="{1}", decaymax=2, decayevery=2, profile=3),
+        # every decay function x bump function (18 initial states): removal with a residual `after`, overshoot
+        # below zero, value 0 with the tag kept, Close, Bump/Remove after Close
+        inst("decayfn", ("p1", "p2"), ("p1a", "p2a"), tagpeers=("p1",), vals="{1}", decaymax=3, profile=3,
+             dkinds=("fixed1", "fixed2", "half", "none", "residual", "zerokeep"),
+             bkinds=("bounded", "unbounded", "overwrite"), deltas="{1, 3}"),
     ]
     if ctx.tier == "thorough":
         out += [
@@ -294,7 +301,7 @@ def _replay_instance(args):
     steps = sum(len(w["steps"]) for w in walks)
     graph.write_behaviours(os.path.join(beh_dir, name + ".jsonl"), walks,
                            {"name": name, "conf": conf[0], "edges": g.n_edges(), "states": g.n_states(),
-                            "state_layout": "[{peer: [kind n|t|c, conns, tags(-1 absent), value, age, protection tags, decaying tag d(-1 absent)]}, connCount, ticker phase, decay phase]"})
+                            "state_layout": "[{peer: [kind n|t|c, conns, tags(-1 absent), value, age, protection tags, decaying tag d(-1 absent)]}, connCount, ticker phase, decay phase, trim in progress, [decay fn, bump fn, closed]]"})
     return name, r.distinct, r.generated, g.n_edges(), len(walks), steps, stats, r.wall
 
 
@@ -320,6 +327,7 @@ def run(ctx):
             cf.ProcessPoolExecutor(max_workers=1) as ps:
         fs = ps.submit(_harness, ctx, "^TestVerifC14Stress$", None)
         fo = ps.submit(_harness, ctx, "^TestVerifC14Overlap$", None)
+        fd = ps.submit(_harness, ctx, "^TestVerifC14Decay$", None)
         fe = [pe.submit(_exhaustive, (ctx, i, ew)) for i in einsts]
         # a trim that skips a protected peer and closes another one / a forced trim closing a protected peer
         fg = [pe.submit(_reach, (ctx, einsts[0], probe, ew)) for probe in ("ReachProtSkip", "ReachForceProt")]
@@ -335,6 +343,7 @@ def run(ctx):
         log("C14: graphs and walks done at %.1fs" % ctx.wall())
         stress = fs.result()
         overlap = fo.result()
+        decay = fd.result()
         gates = fgh.result()
         log("C14: stress and interference scenarios done at %.1fs" % ctx.wall())
 
@@ -354,6 +363,10 @@ def run(ctx):
 
     div = classify_mismatches(ctx, stress, "stress")
     div += classify_mismatches(ctx, overlap, "overlap")
+    div += classify_mismatches(ctx, decay, "decay")
+    dx = decay.get("extra") or {}
+    if not decay["mismatches"] and not (dx.get("removals_with_residual") and dx.get("racing_steps") and dx.get("closes")):
+        raise MachineryError("vacuity guard: decaying-tag histories %s" % dx)
 
     div += classify_mismatches(ctx, gates, "gates")
     gx = gates.get("extra") or {}
@@ -380,6 +393,7 @@ def run(ctx):
         interference={"instance": gres[0], "states": gres[1], "transitions": gres[3], "scripts": gres[4],
                       "script_families_available": gres[5], "runs": gates["replayed"], "runs_delivered": gates["distinct"],
                       "detail": gx, "rule": gates.get("rule")},
+        decaying_tags={"histories": decay["replayed"], "steps": decay["steps"], "detail": dx, "rule": decay.get("rule")},
         overlapping_trims={"rounds": overlap["replayed"], "detail": overlap.get("extra"), "rule": overlap.get("rule")},
         stress_rounds=stress["replayed"], stress_operations=stress["steps"],
         divergences_L2=div, notes=ctx.notes[:10], rule=res.get("rule"), stress_rule=stress.get("rule"))
@@ -388,7 +402,7 @@ def run(ctx):
         "a trim only returns connections to close; the stub connections record Close/CloseWithError and the Disconnected notification is a separate step (as in the swarm, where it is asynchronous)",
         "ForceTrim is documented to ignore the grace period: the grace clause is applied to TrimOpenConns and the background trim only; for ForceTrim the order clause (protected only after all unprotected, lowest value first inside a class) is checked",
         "closing MORE peers than the sort key requires is not excluded by the statement: reported as L2 divergence (membership), not as a violation",
-        "one decaying tag (BumpSumBounded, DecayFixed) with the decayer's resolution equal to the clock unit; closing a decaying tag is not modelled",
+        "model: one decaying tag with the decay functions {DecayFixed(1), DecayFixed(2), DecayLinear(0.5), DecayNone, custom (after#0, rm), custom (0, keep)} x bump functions {BumpSumBounded, BumpSumUnbounded, BumpOverwrite}, Close included, the decayer's resolution equal to the clock unit; several decaying tags per peer, DecayExpireWhenInactive and commands racing a decay tick are covered by the ledger-based TestVerifC14Decay (seeded histories), not by the model",
         "concurrency: (a) interference scripts generated from the two-step (Collect/Select) variant of the spec, delivered by another goroutine at every Stat()/RemotePeer()/CloseWithError() callback of a trim; bursts of at most 2 foreign calls; a burst step on a peer whose segment lock the parked trim holds cannot be delivered at that callback; two overlapping trims' collection/selection windows are not interleaved (only a second trim while the first closes connections); (b) seeded stress audited at quiescence (counts, tag totals, protection) plus the never-closed clauses for peers protected / inside grace throughout; no linearisation check of intermediate states",
     ]}
 
@@ -397,6 +411,6 @@ MANIFEST = {
     "technique": "TLA+ spec (C14_ConnMgr.tla) of the connection manager's tracking, tagging, protection and both trim algorithms, model-checked exhaustively with TLC on bounded instances; every transition of the replay instances executed on the real BasicConnMgr (mock clock inside a synctest bubble, stub connections) with the public view compared after each step and every trim result checked against the statement's clauses and for membership in the model's allowed results; concurrent stress audited at quiescence",
     "category": "model_checking",
     "text": "The spec gives a trim's result as the SET of peer sets the code may close (all orders consistent with the comparison function: temporary entries, value, has-streams, inbound, stream count), so ties are free. TLC checks on every reachable state of the bounded instances that no allowed result touches a protected or in-grace peer, that no kept eligible peer has a smaller value than a closed one, that nothing is closed at or below the low watermark and at most low eligible connections are left otherwise, that the count equals the tracked connections and the cached value the sum of the tags, and the forced trim's order clause. Covering walks over the complete printed state graphs (every source state x every call with every argument, including duplicate notifications, the exact grace boundary, several protection tags, the background ticker, decaying-tag bumps and decay rounds) drive the real manager; the statement's trim clauses are evaluated on the real closed set from a ledger the harness keeps itself.",
-    "note": "Trusted: TLC, the harness ledger and projection (GetInfo, GetTagInfo, IsProtected: public API only; the unexported logger is silenced), testing/synctest for waiting until the background goroutine is idle. Bounded to the listed instance sizes. Over-trimming, the pruning policy for temporary entries, FirstSeen and Unprotect/IsProtected results are L2 only (a walk continues after an L2 disagreement with the ledger-based monitors, so an observable consequence still fails the check). One decaying tag with fixed decay is modelled; closing a decaying tag is not. ForceTrim is exempt from the grace clause (documented behaviour). The concurrent part is a seeded stress with a quiescence audit, not a linearisability proof.",
+    "note": "Trusted: TLC, the harness ledger and projection (GetInfo, GetTagInfo, IsProtected: public API only; the unexported logger is silenced), testing/synctest for waiting until the background goroutine is idle. Bounded to the listed instance sizes. Over-trimming, the pruning policy for temporary entries, FirstSeen and Unprotect/IsProtected results are L2 only (a walk continues after an L2 disagreement with the ledger-based monitors, so an observable consequence still fails the check). One decaying tag (six decay x three bump functions, Close) is modelled; several decaying tags per peer are covered by a ledger-based seeded test that applies the (after, rm) contract itself. ForceTrim is exempt from the grace clause (documented behaviour). The concurrent part is a seeded stress with a quiescence audit, not a linearisability proof.",
     "engines": [{"name": "C14_ConnMgr", "path": "spec/C14_ConnMgr.tla", "serves_properties": ["C14"], "kind_free_text": "TLA+ spec + TLC exhaustive + full-transition replay + concurrent stress audit"}],
 }
